@@ -97,7 +97,7 @@ func (r *run) verifyChained(ma waddrmgr.ManagedAddress, sc *scopeM, a *acctM, re
 			r.fail("derivation-info-wrong:field=BranchIndex:by="+rec.By, "%s: DerivationInfo %+v", where, path)
 			return false
 		case path.MasterKeyFingerprint != wantPath.MasterKeyFingerprint:
-			if r.fail("derivation-info-wrong:field=MasterKeyFingerprint:by="+rec.By+":via="+origin,
+			if r.fail("derivation-info-wrong:field=MasterKeyFingerprint:by="+rec.By,
 				"%s: DerivationInfo reports master key fingerprint %#x, the account's is %#x", where,
 				path.MasterKeyFingerprint, wantPath.MasterKeyFingerprint) {
 				return false
